@@ -129,6 +129,23 @@ func (ic *Credential) CreateDisclosureProofBuilder(
 	rangeStatements map[int][]*rangeproof.Statement,
 	nonrev bool,
 ) (*DisclosureProofBuilder, error) {
+	// The indices and statements come out of a verifier's request. Index 0 is the secret key: it is never disclosed
+	// and nothing is proven about it; every other index has to exist in this credential.
+	for _, i := range disclosedAttributes {
+		if i <= 0 || i >= len(ic.Attributes) {
+			return nil, errors.New("cannot disclose attribute: no such attribute")
+		}
+	}
+	for index, statements := range rangeStatements {
+		if index <= 0 || index >= len(ic.Attributes) {
+			return nil, errors.New("cannot prove range statement: no such attribute")
+		}
+		for _, statement := range statements {
+			if statement == nil || statement.Bound == nil {
+				return nil, errors.New("malformed range statement")
+			}
+		}
+	}
 	d := &DisclosureProofBuilder{}
 	d.pk = ic.Pk
 	var err error
